@@ -142,3 +142,12 @@ pub assume_specification<T, A: core::alloc::Allocator, F: FnMut() -> T> [Vec::<T
     ensures
         final(v)@.len() == new_len,
         forall|i: int| 0 <= i < new_len && i < old(v)@.len() ==> #[trigger] final(v)@[i] == old(v)@[i];
+
+/// R7: `v.drain(a..b);` whose iterator is dropped immediately removes the range.
+#[verifier::external_body]
+pub fn vec_remove_range<T>(v: &mut Vec<T>, a: usize, b: usize)
+    requires a <= b <= old(v)@.len(),
+    ensures final(v)@ == old(v)@.subrange(0, a as int) + old(v)@.subrange(b as int, old(v)@.len() as int),
+{
+    v.drain(a..b);
+}
